@@ -154,6 +154,7 @@ func safeExec(e Engine, plan any, c *Ctx) (v *Violation) {
 			fatal2("panic escaped engine %s: %v\nplan=%s\n%s", e.ID(), p, planJSON(plan), buf)
 		}
 	}()
+	clockInit(hash64(planJSON(plan)), c)
 	return e.Exec(plan, c)
 }
 
@@ -169,7 +170,7 @@ type execResult struct {
 	LogHash string     `json:"log_hash"`
 }
 
-func execFresh(e Engine, plan any) execResult {
+func execFresh(e Engine, plan any, env []string) execResult {
 	tmp, err := os.CreateTemp(scratchBase(), "simcheck-plan-*.json")
 	if err != nil {
 		fatal2("%v", err)
@@ -178,7 +179,7 @@ func execFresh(e Engine, plan any) execResult {
 	tmp.Write(planJSON(plan))
 	tmp.Close()
 	self, _ := os.Executable()
-	out, err := exec.Command(self, "exec", e.ID(), tmp.Name()).Output()
+	out, err := withProcEnv(exec.Command(self, "exec", e.ID(), tmp.Name()), env).Output()
 	if err != nil {
 		fatal2("exec of plan in a fresh process failed: %v\n%s", err, out)
 	}
@@ -212,7 +213,7 @@ func execCmd(id, planfile string) {
 // minimise greedily shrinks plan while the same violation class recurs; every
 // candidate is executed in a fresh process, in parallel batches (the first
 // accepted candidate in proposal order wins, so the result is deterministic).
-func minimise(e Engine, plan any, v *Violation, maxExecs int, deadline time.Time) (any, *Violation, int) {
+func minimise(e Engine, plan any, v *Violation, maxExecs int, deadline time.Time, env []string) (any, *Violation, int) {
 	execs := 0
 	par := runtime.NumCPU()
 	for {
@@ -227,7 +228,7 @@ func minimise(e Engine, plan any, v *Violation, maxExecs int, deadline time.Time
 			var wg sync.WaitGroup
 			for k := lo; k < hi; k++ {
 				wg.Add(1)
-				go func(k int) { defer wg.Done(); res[k-lo] = execFresh(e, cands[k]) }(k)
+				go func(k int) { defer wg.Done(); res[k-lo] = execFresh(e, cands[k], env) }(k)
 			}
 			wg.Wait()
 			execs += hi - lo
@@ -265,6 +266,9 @@ type ReplayFile struct {
 	// worker process (process-global state in the library): the replay is then
 	// the deterministic re-execution of that worker's runs up to Run.
 	ShardPrefix *shardPrefix `json:"shard_prefix,omitempty"`
+	// ProcEnv: what the worker process that found the violation was started with on top
+	// of the inherited environment (procenv.go); replay re-executes itself with it.
+	ProcEnv []string `json:"process_environment,omitempty"`
 }
 
 type shardPrefix struct {
@@ -293,7 +297,7 @@ func verifDir() string {
 	return "/verif"
 }
 
-func writeReplay(e Engine, seed, run uint64, orig, plan any, v *Violation, shr int, sp *shardPrefix) string {
+func writeReplay(e Engine, seed, run uint64, orig, plan any, v *Violation, shr int, sp *shardPrefix, env []string) string {
 	c := newCtx(true)
 	if sp == nil {
 		// event log for the file; the authoritative hash comes from the fresh-process replay
@@ -301,9 +305,9 @@ func writeReplay(e Engine, seed, run uint64, orig, plan any, v *Violation, shr i
 	}
 	head, diff := repoState()
 	rf := ReplayFile{Property: e.ID(), Seed: seed, Run: run, Class: v.Class, Key: v.Key, Detail: v.Detail,
-		Plan: planJSON(plan), Original: planJSON(orig), Shrinks: shr, Log: c.Log, LogHash: logHash(c.Log), RepoHead: head, RepoDiff: diff, ShardPrefix: sp}
+		Plan: planJSON(plan), Original: planJSON(orig), Shrinks: shr, Log: c.Log, LogHash: logHash(c.Log), RepoHead: head, RepoDiff: diff, ShardPrefix: sp, ProcEnv: env}
 	if sp == nil {
-		rf.LogHash = execFresh(e, plan).LogHash
+		rf.LogHash = execFresh(e, plan, env).LogHash
 	}
 	dir := filepath.Join(envOr("VERIF_REPLAY_DIR", filepath.Join(verifDir(), "replays")), e.ID())
 	os.MkdirAll(dir, 0o755)
@@ -370,8 +374,8 @@ func replayCrash(rf ReplayFile, path string) int {
 	}
 	defer os.RemoveAll(tmp)
 	sp := rf.ShardPrefix
-	cmd := exec.Command(self, "shard", rf.Property, sp.Tier, fmt.Sprint(rf.Seed), fmt.Sprint(sp.K), fmt.Sprint(sp.N), fmt.Sprint(rf.Run),
-		fmt.Sprint(time.Now().Add(30*time.Minute).UnixNano()), filepath.Join(tmp, "part.json"))
+	cmd := withProcEnv(exec.Command(self, "shard", rf.Property, sp.Tier, fmt.Sprint(rf.Seed), fmt.Sprint(sp.K), fmt.Sprint(sp.N), fmt.Sprint(rf.Run),
+		fmt.Sprint(time.Now().Add(30*time.Minute).UnixNano()), filepath.Join(tmp, "part.json")), rf.ProcEnv)
 	var out bytes.Buffer
 	cmd.Stdout, cmd.Stderr = &out, &out
 	err = cmd.Run()
@@ -403,6 +407,20 @@ func replay(path string, quiet bool) int {
 	e, ok := engines[rf.Property]
 	if !ok {
 		fatal2("no engine for %s in this binary", rf.Property)
+	}
+	if !sameEnv(rf.ProcEnv, myProcEnv()) && !(rf.Class == "fatal-runtime-error" && rf.ShardPrefix != nil) {
+		// the violation was found in a process started in a particular environment
+		// (procenv.go): replay in a process started the same way
+		self, _ := os.Executable()
+		cmd := withProcEnv(exec.Command(self, os.Args[1:]...), rf.ProcEnv)
+		cmd.Stdout, cmd.Stderr = os.Stdout, os.Stderr
+		err := cmd.Run()
+		if ee, ok := err.(*exec.ExitError); ok {
+			return ee.ExitCode()
+		} else if err != nil {
+			fatal2("replay exec: %v", err)
+		}
+		return 0
 	}
 	if rf.Class == "fatal-runtime-error" && rf.ShardPrefix != nil {
 		return replayCrash(rf, path)
@@ -520,6 +538,7 @@ type rawViolation struct {
 	V    Violation       `json:"violation"`
 	K    int             `json:"k"`
 	N    int             `json:"n"`
+	Env  []string        `json:"env,omitempty"`
 }
 type foundViolation struct {
 	Run    uint64 `json:"run"`
@@ -575,7 +594,7 @@ func runShard(e Engine, tier string, seed uint64, k, n, total int, deadline time
 		}
 		// Stop at the first violation: from here on this process may carry
 		// corrupted global state, and everything else is done in fresh processes.
-		res.First = &rawViolation{Run: run, Plan: planJSON(plan), V: *v, K: k, N: n}
+		res.First = &rawViolation{Run: run, Plan: planJSON(plan), V: *v, K: k, N: n, Env: myProcEnv()}
 		break
 	}
 	for h := range seen {
@@ -640,6 +659,9 @@ func runCheck(e Engine, tier string, seed uint64, workers int, runsOverride int,
 		total = v
 	}
 	deadline := start.Add(wall)
+	if !inproc && workers > 1 {
+		workers = workersFor(workers)
+	}
 	var parts []*shardResult
 	var crashed []shardCrash
 	if inproc || workers <= 1 {
@@ -658,8 +680,8 @@ func runCheck(e Engine, tier string, seed uint64, workers int, runsOverride int,
 			wg.Add(1)
 			go func(k int) {
 				defer wg.Done()
-				cmd := exec.Command(self, "shard", e.ID(), tier, fmt.Sprint(seed), fmt.Sprint(k), fmt.Sprint(workers), fmt.Sprint(total),
-					fmt.Sprint(deadline.UnixNano()), filepath.Join(tmp, fmt.Sprintf("part%d.json", k)))
+				cmd := withProcEnv(exec.Command(self, "shard", e.ID(), tier, fmt.Sprint(seed), fmt.Sprint(k), fmt.Sprint(workers), fmt.Sprint(total),
+					fmt.Sprint(deadline.UnixNano()), filepath.Join(tmp, fmt.Sprintf("part%d.json", k))), procEnvFor(k, workers, seed))
 				cmd.Stdout, cmd.Stderr = &outs[k], &outs[k]
 				errs[k] = cmd.Run()
 			}(k)
@@ -748,22 +770,37 @@ func runCheck(e Engine, tier string, seed uint64, workers int, runsOverride int,
 			fatal2("decode own plan: %v", err)
 		}
 		var path string
-		fr := execFresh(e, plan)
+		fr := execFresh(e, plan, rv.Env)
 		if fr.V == nil || fr.V.Class != rv.V.Class {
 			// depends on the runs that preceded it in its worker process
 			v := rv.V
 			v.Class += "+process-history"
 			v.Detail = "reproducible only after the preceding runs of its worker process (state leaks between independent middlewares/runs through process-global memory): " + v.Detail
-			path = writeReplay(e, seed, rv.Run, plan, plan, &v, 0, &shardPrefix{Tier: tier, K: rv.K, N: rv.N})
+			path = writeReplay(e, seed, rv.Run, plan, plan, &v, 0, &shardPrefix{Tier: tier, K: rv.K, N: rv.N}, rv.Env)
 			confirmed = append(confirmed, foundViolation{Run: rv.Run, Replay: path, Class: v.Class, Key: v.Key, Detail: v.Detail})
 			// the prefix replay is its own confirmation (it is the run that found it); checked below
 		} else {
-			mp, mv, shr := minimise(e, plan, fr.V, 3000, minDeadline)
+			mp, mv, shr := minimise(e, plan, fr.V, 3000, minDeadline, rv.Env)
+			if len(rv.Env) > 0 { // does it need that environment at all? all of it?
+				if r0 := execFresh(e, mp, nil); r0.V != nil && r0.V.Class == mv.Class {
+					rv.Env = nil
+				} else {
+					for i := 0; i < len(rv.Env) && len(rv.Env) > 1; {
+						less := append(append([]string{}, rv.Env[:i]...), rv.Env[i+1:]...)
+						if r1 := execFresh(e, mp, less); r1.V != nil && r1.V.Class == mv.Class {
+							rv.Env = less
+						} else {
+							i++
+						}
+					}
+					mv.Detail = fmt.Sprintf("[in a process started with %s] ", strings.Join(rv.Env, " ")) + mv.Detail
+				}
+			}
 			if kf := matchKnown(known, e.ID(), mv); kf != nil {
 				m.KnownHits[kf.Text]++
 				continue
 			}
-			path = writeReplay(e, seed, rv.Run, plan, mp, mv, shr, nil)
+			path = writeReplay(e, seed, rv.Run, plan, mp, mv, shr, nil, rv.Env)
 			confirmed = append(confirmed, foundViolation{Run: rv.Run, Replay: path, Class: mv.Class, Key: mv.Key, Detail: mv.Detail})
 		}
 		_, err = exec.Command(self, "replay", "-quiet", path).CombinedOutput()
@@ -791,7 +828,7 @@ func runCheck(e Engine, tier string, seed uint64, workers int, runsOverride int,
 			if hits == 0 {
 				// fall back to the plan as it was found (unminimised)
 				v := rv.V
-				path = writeReplay(e, seed, rv.Run, plan, plan, &v, 0, nil)
+				path = writeReplay(e, seed, rv.Run, plan, plan, &v, 0, nil, rv.Env)
 				last.Replay = path
 				for t := 0; t < tries; t++ {
 					_, err := exec.Command(self, "replay", "-quiet", path).CombinedOutput()
@@ -835,7 +872,7 @@ func runCheck(e Engine, tier string, seed uint64, workers int, runsOverride int,
 		}
 		head, diff := repoState()
 		rf := ReplayFile{Property: e.ID(), Seed: seed, Run: uint64(total), Class: "fatal-runtime-error", Key: "worker", Detail: detail, RepoHead: head, RepoDiff: diff,
-			ShardPrefix: &shardPrefix{Tier: tier, K: cr.k, N: workers}}
+			ShardPrefix: &shardPrefix{Tier: tier, K: cr.k, N: workers}, ProcEnv: procEnvFor(cr.k, workers, seed)}
 		b, _ := json.MarshalIndent(rf, "", " ")
 		dir := filepath.Join(envOr("VERIF_REPLAY_DIR", filepath.Join(verifDir(), "replays")), e.ID())
 		os.MkdirAll(dir, 0o755)
@@ -901,6 +938,23 @@ func writeEvidence(e Engine, tier string, seed uint64, m *shardResult, distinct,
 		"known_finding_hits":         m.KnownHits,
 		"dictionary_mined_from_tree": dict.summary(),
 		"dictionary_note":            "literals of the non-test Go files of the tree under test, offered to the generators only (sim/dict.go); VERIF_DICT=0 switches it off",
+	}
+	if workers > 1 {
+		envs := map[string]int{}
+		for k := 0; k < workers; k++ {
+			key := strings.Join(procEnvFor(k, workers, seed), " ")
+			if key == "" {
+				key = "(inherited)"
+			}
+			envs[key]++
+		}
+		cov["worker_process_environments"] = envs
+		cov["worker_process_environments_note"] = "start-up environment of the worker processes (sim/procenv.go): GOMAXPROCS values that are mostly not powers of two; environment variables only if the tree under test reads some by a literal name"
+	}
+	if clockBuild {
+		cov["simulated_clock"] = "on: the tree under test imports \"time\"; time.Now/Since/Until/Sleep read the simulator's clock, which jumps forward between the steps of a run (fault F13, sim/clock_on.go)"
+	} else {
+		cov["simulated_clock"] = "not built: the tree under test does not import \"time\", so there is no clock for its behaviour to depend on"
 	}
 	if f := os.Getenv("VERIF_EXTRA_EVIDENCE"); f != "" {
 		if b, err := os.ReadFile(f); err == nil {
